@@ -19,7 +19,9 @@ HOSTILE = [': x', '# c', '- a', '? q', '?x', '| b', '> f', "it's", '"dq"', 'back
            'null', '~', '1e3', '0x1F', '007', '1.5', 'true', 'Null', ' lead', 'trail ', '  both  ', 'two\nlines',
            'tab\there', 'ünï', '日本語', '🙂 emoji', 'a: b: c', '%TAG', '@at', '`tick', '!bang', '&anchor', '*alias',
            'x' * 120, 'semi;colon', 'comma, sep', '', ' ', 'line\r\nwin', 'nbsp\u00a0x', 'ls\u2028x', '=', '<<', 'a\\nb',
-           "'", '"', '\\', 'C:\\dir', '-', '--- doc', '... end', 'key: |']
+           "'", '"', '\\', 'C:\\dir', '-', '--- doc', '... end', 'key: |',
+           # plain scalars that YAML 1.1 reads as booleans / numbers and YAML 1.2 as strings
+           'on', 'off', 'y', 'n', 'Yes', 'NO', 'On', '1:30', '0o17', '1_000', '.inf', '+1']
 NEL = 'nel\x85x'
 
 
@@ -94,6 +96,9 @@ class C11(Prop):
             ops = []
         enc = ChartEnc(sc)
         payload = {'kind': 'multi', 'chart0': enc.json, 'executable': executable, 'ops1': ops}
+        if rnd.random() < 0.3:
+            # a document of another YAML version was imported earlier in the same process
+            payload['preload11'] = True
         case = Case(payload, {'chart0': sc})
         self._finish(case)
         return case
@@ -182,6 +187,11 @@ class C11(Prop):
         out = {'multi': []}
         d = export_to_dict(sc)
         out['multi'].append({'data': json.loads(json.dumps(d))})
+        if case.payload.get('preload11'):
+            try:
+                import_from_yaml('%YAML 1.1\n---\nstatechart:\n  name: earlier\n  root state:\n    name: r\n')
+            except Exception:       # noqa
+                pass
         try:
             text = export_to_yaml(sc)
             sc2 = import_from_yaml(text)
